@@ -350,6 +350,14 @@ func genC19(r *Runner) {
 					si.Signature = []byte{1}
 					si.SignatureAlgorithm = signature.AlgorithmES256
 				},
+				// a certificate chain (valid these days: most of the times tried lie outside its leaf's validity), whole and leaf only
+				func(si *signature.SignerInfo) { si.CertificateChain = getIdentity("ec256-0", 2).chain },
+				func(si *signature.SignerInfo) { si.CertificateChain = getIdentity("ec256-0", 3).chain[:1] },
+				func(si *signature.SignerInfo) {
+					si.CertificateChain = getIdentity("rsa2048-0", 2).chain
+					si.SignedAttributes.Expiry = t.Add(time.Hour)
+					si.SignatureAlgorithm = signature.AlgorithmPS256
+				},
 			} {
 				si := &signature.SignerInfo{}
 				si.SignedAttributes.SigningScheme = scheme
